@@ -59,6 +59,26 @@ def events(rng, homs):
                 for fn in F6:
                     yield "crf", {"a": a, "b": b_}, 1 / (s * s), (lambda A=A, B=B, fn=fn: V(A).cross(C[fn](B)).A), "SpatialVelocity.cross(%s)" % fn
                     yield "crf", {"a": a, "b": b_}, 1 / (s * s), (lambda A=A, B=B, fn=fn: (V(A) @ C[fn](B)).A), "SpatialVelocity@%s" % fn
+    # ONE live velocity object whose value is replaced through the list interface between cross products: every
+    # product is judged against the value the object holds at that moment
+    V = C["SpatialVelocity"]
+    F = C["SpatialForce"]
+    for i in range(0, len(pts) - 3, 2):
+        a0, a1, a2, b_ = pts[i], pts[i + 1], pts[i + 2], pts[(i + 5) % len(pts)]
+        live = V(np.array(a0, dtype=float))
+        B = np.array(b_, dtype=float)
+
+        def set0(live=live, a1=a1):
+            live[0] = V(np.array(a1, dtype=float))
+
+        def poppush(live=live, a2=a2):
+            live.pop()
+            live.append(V(np.array(a2, dtype=float)))
+        yield "crm", {"a": a0, "b": b_}, 1.0, (lambda live=live, B=B: live.cross(V(B)).A), "SpatialVelocity.cross(live,first)"
+        yield "crf", {"a": a0, "b": b_}, 1.0, (lambda live=live, B=B: live.cross(F(B)).A), "SpatialVelocity.cross(live,force)"
+        yield "crm", {"a": a1, "b": b_}, 1.0, (lambda live=live, B=B, set0=set0: (set0(), live.cross(V(B)).A)[1]), "SpatialVelocity.cross(live,after item assignment)"
+        yield "crf", {"a": a1, "b": b_}, 1.0, (lambda live=live, B=B: (live @ F(B)).A), "SpatialVelocity@force(live,after item assignment)"
+        yield "crm", {"a": a2, "b": b_}, 1.0, (lambda live=live, B=B, poppush=poppush: (poppush(), live.cross(V(B)).A)[1]), "SpatialVelocity.cross(live,after pop and append)"
     Js = [((2, 0, 0), (0, 3, 0), (0, 0, 4)), ((2, 1, 0), (1, 3, -1), (0, -1, 4)), ((5, -2, 1), (-2, 6, 0), (1, 0, 7))]
     cs = [(0, 0, 0), (1, 0, 0), (1, -2, 3), (0, 2, -1)]
     for m in (1, 2, 5):
